@@ -246,6 +246,60 @@ def r12_6(chk, P):
                'the offset bookkeeping can change before the seek callback has been called')
 
 
+def r12_7(chk, P):
+    chk.rule('R12.7', 'vorbisfile keeps the invariant "position of the data source = vf->offset + bytes buffered in vf->oy": the '
+             'buffered bytes of the handle\'s sync state are dropped (ogg_sync_reset/ogg_sync_clear on vf->oy) only where the '
+             'same path also re-defines vf->offset (a seek) or wipes the handle; no other function may discard buffered input '
+             '(after an I/O error the bookkeeping must still describe the source)')
+    n = 0
+    for F in P.functions():
+        if not F.file.endswith('vorbisfile.c'):
+            continue
+        sites = []
+        for c in F.calls():
+            d = F.ex[c]['callee'].get('d')
+            if d not in ('ogg_sync_reset', 'ogg_sync_clear', 'ogg_sync_init'):
+                continue
+            a = F.ex[c].get('c', [None])[0]
+            if a is None:
+                continue
+            an = F.ex[F.strip_casts(a)]
+            if an['k'] == 'un' and an['op'] == '&':
+                m = F.ex[F.strip_casts(an['c'][0])]
+                if m['k'] == 'member' and m.get('record') == VF and m['field'] == 'oy':
+                    sites.append((c, d))
+        if not sites:
+            continue
+        A, h = k2.analyse(P, F, [('offset_defined', k2.any_of(k2.stores_field(VF, 'offset', ops=('=',)),
+                                                              k2.is_call('memset')), True)])
+        for i, (c, d) in enumerate(sorted(sites, key=lambda x: F.ex[x[0]]['loc'])):
+            # the offset is (re)defined before the reset on every path, or after it before the function returns
+            before = all('offset_defined' in fl for fl in (h.at.get(c) or [frozenset()])) if h.at.get(c) else None
+            # flags at the call are recorded only for watched nodes: run a second pass with a watch
+            n += 1
+            sites[i] = (c, d)
+        A2, h2 = k2.analyse(P, F, [('offset_defined', k2.any_of(k2.stores_field(VF, 'offset', ops=('=',)), k2.is_call('memset')), True)],
+                            watch=lambda A_, e_: e_ in [s_[0] for s_ in sites])
+        for i, (c, d) in enumerate(sorted(sites, key=lambda x: F.ex[x[0]]['loc'])):
+            flags_at = h2.at.get(c, set())
+            before = bool(flags_at) and all('offset_defined' in fl for fl in flags_at)
+            after = False
+            if not before:
+                def settles(nn):
+                    x = F.ex[nn]
+                    if x['k'] == 'assign':
+                        l = F.ex[F.strip_casts(x['c'][0])]
+                        return l['k'] == 'member' and l.get('record') == VF and l['field'] == 'offset'
+                    return x['k'] == 'call' and x['callee'].get('d') == 'memset'
+                after = cfg.reaches_exit_avoiding(F, F.pos[c], settles) is None
+            ok = before or after
+            chk.ob('R12.7', P.key(F), f'{d}#{i}:offset-redefined-with-it', ok, F.where(c),
+                   'vf->offset is re-defined on the same path (seek) or the handle is wiped' if ok else
+                   f'{d}(&vf->oy) discards buffered input while vf->offset keeps its old value: the handle\'s idea of the source '
+                   'position is off by the bytes dropped, and a later seek to that offset is skipped')
+    return n
+
+
 def run(chk, P):
     E, C = io_sets(P)
     chk.notes.append(f'I/O-capable functions: {len(E)}; of those error-carrying: {len(C)}; not error-carrying: {sorted(E - C)}')
@@ -259,6 +313,8 @@ def run(chk, P):
     chk.floor('R12.5', 2)
     r12_6(chk, P)
     chk.floor('R12.6', 3)
+    r12_7(chk, P)
+    chk.floor('R12.7', 2)
     import typestate
     typestate.c12(chk, P)
     chk.trusted += ['clang 14 front end', 'call graph with callbacks as external events', 'interval + excluded-constant abstraction of '
